@@ -1204,6 +1204,12 @@ class Interp:
         if isinstance(fn, Njit):
             return self.call_njit(fn, args, kwargs, node, ms)
         if isinstance(fn, DType):
+            # a literal element type applied to a computed value (np.float32(1 / dx / dx)) fixes the precision of that value
+            # whatever the working precision real_t is: in a double-precision object the value is rounded to single
+            f = getattr(node, "func", None)
+            if isinstance(f, ast.Attribute) and f.attr in ("float32", "float64", "single", "double", "float16", "half") and args \
+                    and not isinstance(getattr(node, "args", [None])[0], ast.Constant):
+                self.problem("precision", "%s(...) converts a computed value to a fixed element type instead of the working precision" % ast.unparse(f), node, ms)
             return self.ext.cast(fn, args, kwargs, node, ms)
         if isinstance(fn, FFTPlan):
             return self.ext.call_fft(fn, args, kwargs, node, ms)
